@@ -84,11 +84,11 @@ pub fn run(env: &Env, rep: &Report) {
     rep.set_rule("track lifetimes of 10..300 updates for one or two well separated objects, history length 1..10, visual_max_observations 1..6 with minimal track length <= it, quality sequences increasing / decreasing / constant / around the collect threshold / saw tooth with equal values / random with absent quality, features present or absent, occasional missed frames; the track is finally expired and converted to WastedSortTrack / WastedVisualSortTrack; plus the general crowded histories of C01 with the same assertions. Oracle: invariant over every update comparing the gallery before and after (bound, collect gate, sub-multiset, lowest quality evicted first, count, newest first and only box) and the observed / predicted / feature histories against the monitor's full log. Non-trivial: a lifetime longer than both bounds with >= 1 eviction and >= 1 rejected feature (VisualSORT) or a converted wasted track (SORT); distinct = distinct serialized history");
     rep.assume("observed-box histories compared within 2 ulp per field; area / own-area collect decisions within 1e-4 / 2e-3 of the threshold accept either outcome");
     let pool = IsoPool::new(&env.prop, "lifetime", std::time::Duration::from_secs(120));
-    let n = env.tier.pick(1_000, 20_000);
+    let n = env.tier.pick(2_500, 30_000);
     for kind in KINDS {
         par_generated(rep, "lifetime", move || lifetime(kind), n, workers(), iso_check(&pool, rep));
     }
-    let n = env.tier.pick(800, 12_000);
+    let n = env.tier.pick(2_000, 20_000);
     for kind in KINDS {
         par_generated(rep, "lifetime", move || history(kind, true, 50), n, workers(), iso_check(&pool, rep));
     }
